@@ -306,7 +306,7 @@ def zoo_portfolio_traces(chk, seeds, routes=('mono', 'split', 'io'), zoo_list=No
                             out = eao.io.extract_output(pf, op, res) if not isinstance(res, str) else None
                         elif route == 'split':
                             # an interval must hold at least one coarse step / one period of every asset
-                            op = pf.setup_split_optim_problem(pr, tg, interval_size='4h' if name in ('coarse', 'periodic', 'periodic_duration') else '2h')
+                            op = pf.setup_split_optim_problem(pr, tg, interval_size='4h' if name.split('/')[0] in ('coarse', 'periodic', 'periodic_duration') else '2h')
                             res = op.optimize()
                             out = eao.io.extract_output(pf, op, res) if not isinstance(res, str) else None
                         else:
@@ -320,7 +320,7 @@ def zoo_portfolio_traces(chk, seeds, routes=('mono', 'split', 'io'), zoo_list=No
                 except MachineryError:
                     raise
                 except Exception as e:
-                    if route == 'split' and name in SPLIT_UNSUPPORTED:
+                    if route == 'split' and name.split('/')[0] in SPLIT_UNSUPPORTED:
                         chk.cnt['split_not_applicable'] += 1
                         continue
                     chk.violation(dict(sel, check='pipeline_raises', error=type(e).__name__), 'pipeline raised %s: %s' % (type(e).__name__, e), dict(portfolio=name, seed=seed))
